@@ -83,8 +83,19 @@ def sqe_cases(ctx, ctors, n):
     return cases
 
 
-def judge_sqe(ctors_by_name):
-    """independent byte-level oracle: the struct io_uring_sqe layout, written out by hand here"""
+# struct io_uring_sqe (include/uapi/linux/io_uring.h), byte ranges
+SQE_LAYOUT = [("opcode", 0, 1), ("flags", 1, 2), ("ioprio", 2, 4), ("fd", 4, 8), ("off/addr2", 8, 16), ("addr", 16, 24), ("len", 24, 28),
+              ("op_flags", 28, 32), ("user_data", 32, 40), ("buf_index", 40, 42), ("personality", 42, 44), ("file_index", 44, 48),
+              ("addr3/cmd", 48, 64)]
+
+
+def judge_sqe(ctors_by_name, intent=None):
+    """independent byte-level oracle: the struct io_uring_sqe layout, written out by hand here; then the SPEC image: what the
+    kernel ABI + the constructor's intent (Model/UringAbi.lean, hand-written; rendered by the driver's `sqe-intent` line from
+    the operand names only, none of the regenerated field sources) prescribe for these arguments — a byte that differs is a
+    concrete failing input of the encoding property, however the constructor is spelled in the source"""
+    intent = intent or {}
+
     def j(case, out):
         w = case.split()
         if not out.startswith("img "):
@@ -113,13 +124,21 @@ def judge_sqe(ctors_by_name):
                 want = -100 if (v == -1) else v
                 if int.from_bytes(b[4:8], "little", signed=True) != want:
                     return "fd field does not carry %s" % first[0]
+        spec = intent.get(case, "")
+        if name != "new_poll_add" and spec.startswith("img "):      # poll_add: sqe_poll_add_partial (2 of 4 bytes written)
+            sb = bytes.fromhex(spec.split()[1])
+            for fname, lo, hi in SQE_LAYOUT:
+                if b[lo:hi] != sb[lo:hi]:
+                    return "intent %s@%d: the constructor stores %d there, the kernel ABI + the constructor's intent prescribe %d" % (
+                        fname, lo, int.from_bytes(b[lo:hi], "little"), int.from_bytes(sb[lo:hi], "little"))
         return None
     return j
 
 
 def run(ctx):
     ctx.rule = ("sqe stream: every regenerated constructor (except new_sendmsg, which needs a live guard object) on boundary-biased "
-                "random operands, image compared byte for byte; teardown stream: (entries, flags, SINGLE_MMAP shown/hidden, failing "
+                "random operands, image compared byte for byte with the Lean encoder over the regenerated table AND with the spec image "
+                "(ABI + intent; all but new_poll_add); teardown stream: (entries, flags, SINGLE_MMAP shown/hidden, failing "
                 "mmap none/0/1/2) on the running kernel, against the dev AND the release build of the harness; distinct_nontrivial = distinct (constructor) + (entries, flags, single, fail) classes; "
                 "oracle run: random batches of 1..8 independent or linked ops (openat/close/readv/writev/statx/mkdirat/unlinkat/renameat/"
                 "timeout) on one 8-entry ring vs std/direct syscalls in a twin directory, (user_data,res), read content, statx and final "
@@ -130,8 +149,12 @@ def run(ctx):
     ctx.assumptions += [
         "Model/UringAbi.lean states the io_uring ABI (field per operand per opcode, C types) and the intent of each constructor; both are "
         "hand-written from the kernel sources / the constructors' documentation",
-        "Gen/SqeCtors.lean is regenerated by checks/c18_gen.py (regex extractor over the struct literals; anything it cannot translate is a "
-        "broken obligation); its fidelity is checked by the image correspondence of this run",
+        "Gen/SqeCtors.lean is regenerated by checks/c18_gen.py: a parser + symbolic evaluator for a pure expression fragment (13-field "
+        "literal, struct-update `..base`, calls of this file's helper fns inlined by substituting arguments for parameters to any depth, "
+        "`let x = e;` prefixes, casts at least as wide as the field); anything outside it is a broken obligation, never a guess; its "
+        "fidelity is checked on every run by the image correspondence (sqe-debug / sqe-release run on the regenerated table: a wrong "
+        "inlining is a disagreement) and every image is also judged against the spec image ABI + intent prescribe (coverage.gen says "
+        "how many rows went through inlining / struct-update)",
         "KERNEL CONTRACT (Model/Ring.lean kstep: in-order consumption, exactly one completion per consumed entry with its user_data and the "
         "direct call's result or -ECANCELED behind a failed link, any completion order, posting only while the completion ring has room, "
         "FIFO overflow list otherwise): kernel behaviour, ASSUMED by cqe_exactly_once / cqe_complete_at_quiescence / link_chain_order / "
@@ -150,7 +173,8 @@ def run(ctx):
     # 1. regenerate the constructor table from /repo
     try:
         ctors, changed = c18_gen.regenerate()
-        ctx.extra["gen"] = {"constructors": len(ctors), "rewritten": changed}
+        # how each table row was obtained: straight from a 13-field literal, or through inlined helper fns / struct-update / lets
+        ctx.extra["gen"] = dict(c18_gen.via_summary(ctors), rewritten=changed)
     except Exception as e:  # Untranslatable or I/O
         ctx.broken.append({"translator": repr(e)})
         ctors = None
@@ -169,13 +193,22 @@ def run(ctx):
     quick = ctx.tier == "quick"
     # 2. images of the real constructors
     if ctors is None:
-        # the table could not be regenerated: fall back to the last generated one for the failing-input search
-        import re
-        ctors = []
+        # the source could not be translated (a broken obligation, reported at the end): the failing-input search goes on with the
+        # table generated last (Gen/SqeCtors.lean as it is on disk = the last translatable source) and its driver; a constructor
+        # whose bytes changed, not just its spelling, then shows up with its arguments
+        ctors = c18_gen.last_generated()
+        C.sh(["lake", "build", "drv_c18"], cwd=C.LEAN, timeout=3000)
+        if not os.path.exists(drv[0]):
+            ctors = []
+        ctx.extra["gen"] = {"translator_failed": True, "image_stream_uses": "the table generated last (%d constructors)" % len(ctors)}
     if ctors:
         by_name = {c["name"]: c for c in ctors}
         cases = sqe_cases(ctx, ctors, 4000 if quick else 200000)
-        j = judge_sqe(by_name)
+        # the spec image of every case (ABI + intent), from the driver
+        _, spec_imgs, _ = C.run_filter(drv, ["sqe-intent " + c_[4:] for c_ in cases])
+        intent = dict(zip(cases, spec_imgs)) if len(spec_imgs) == len(cases) else {}
+        ctx.extra["sqe_spec_images"] = {"cases": len(cases), "with_spec_image": sum(1 for v in spec_imgs if v.startswith("img ")) if intent else 0}
+        j = judge_sqe(by_name, intent)
         for release in (False, True):
             e2, err = build(ctx, release)
             if e2 is None:
